@@ -1,6 +1,7 @@
 (* C14 - Growable DNA string is a faithful sequence container.  Statements only. *)
 From Coq Require Import NArith List Bool Arith.
-From DBG Require Import Spec.Dna Packed.Blocks Packed.DnaStringModel Algo.SeqHist Proofs.DnaStringProofs.
+From DBG Require Import Spec.Dna Packed.Blocks Packed.DnaStringModel Packed.SliceModel Packed.PackedSet Algo.SeqHist
+  Proofs.DnaStringProofs Proofs.SliceProofs Proofs.HammingProofs Proofs.DnaStringMore.
 Import ListNotations.
 Open Scope N_scope.
 
@@ -36,6 +37,29 @@ Proof. exact d_hash_feed_inj. Qed.
 Theorem C14_ord_lex : forall a b, d_inv a -> d_inv b -> d_cmp a b = dna_compare (d_abs a) (d_abs b).
 Proof. exact d_cmp_lex. Qed.
 
+(* renderings: to_ascii_vec and Display/to_string spell the bases *)
+Theorem C14_to_ascii : forall s, d_inv s -> d_to_ascii s = Some (text (d_abs s)).
+Proof. exact d_to_ascii_spec. Qed.
+Theorem C14_to_text : forall s, d_inv s -> d_to_text s = Some (text (d_abs s)).
+Proof. exact d_to_text_spec. Qed.
+(* ndiffs (packed, word-wise) = number of differing positions; relies on the padding lanes of BOTH operands being zero *)
+Theorem C14_ndiffs : forall a b, d_inv a -> d_inv b -> d_len a = d_len b ->
+  d_ndiffs a b = Some (count_diff (d_abs a) (d_abs b)).
+Proof. exact d_ndiffs_spec. Qed.
+(* a packed set of strings returns every added sequence unchanged at its index (sequences shorter than 2^32 bases:
+   the length vector is Vec<u32>) *)
+Theorem C14_packed_set_get : forall seqs, Forall wf_dna seqs -> Forall (fun l => N.of_nat (length l) < 2 ^ 32) seqs ->
+  exists p, p_add_all p_new seqs = Some p /\ p_len p = length seqs /\
+    forall i, (i < length seqs)%nat ->
+      exists sl, p_get p i = Some sl /\ sl_bytes (p_seq p) sl = Some (nth i seqs []).
+Proof. exact packed_set_get. Qed.
+Example C14_packed_nonvacuous :
+  match p_add_all p_new [[0; 1; 2]; []; repeat 3 33; [2]] with
+  | Some p => p_len p = 4%nat /\ p_start p = [0; 3; 3; 36]%nat /\
+              (match p_get p 2 with Some sl => sl_bytes (p_seq p) sl = Some (repeat 3 33) | None => False end)
+  | None => False end.
+Proof. vm_compute. auto. Qed.
+
 (* non-vacuity: 33 pushes cross a block boundary; set, clear and bulk extend in one history *)
 Example C14_nonvacuous :
   dops_ok 0 [DExtend (repeat 1 33); DSet 32 3; DPush 2; DClear; DFromBytes [0; 1; 2; 3]; DRc; DPushBytes [0xE4] 3] = true /\
@@ -51,3 +75,6 @@ Print Assumptions C14_rc.
 Print Assumptions C14_eq_iff.
 Print Assumptions C14_hash_feed_inj.
 Print Assumptions C14_ord_lex.
+Print Assumptions C14_to_ascii.
+Print Assumptions C14_ndiffs.
+Print Assumptions C14_packed_set_get.
